@@ -148,7 +148,8 @@ def _read_parameter(
         return parsed_directive.next_index
 
     if warn_unknown_params:
-        with suppress(AttributeError):  # For Parameters sections in objects without parameters.
+        # For Parameters sections in objects without parameters, or whose `__init__` method cannot be resolved.
+        with suppress(AttributeError, AliasResolutionError, CyclicAliasError):
             params = docstring.parent.parameters  # type: ignore[union-attr]
             if name not in params:
                 message = f"Parameter '{name}' does not appear in the function signature"
@@ -177,7 +178,7 @@ def _read_parameter(
 def _determine_param_default(docstring: Docstring, name: str) -> str | None:
     try:
         return docstring.parent.parameters[name.lstrip()].default  # type: ignore[union-attr]
-    except (AttributeError, KeyError):
+    except (AttributeError, KeyError, AliasResolutionError, CyclicAliasError):
         return None
 
 
@@ -207,7 +208,7 @@ def _determine_param_annotation(
     if annotation is None:
         try:
             annotation = docstring.parent.parameters[name.lstrip()].annotation  # type: ignore[union-attr]
-        except (AttributeError, KeyError):
+        except (AttributeError, KeyError, AliasResolutionError, CyclicAliasError):
             docstring_warning(docstring, 0, f"No matching parameter for '{name}'")
 
     return annotation
